@@ -6,7 +6,7 @@
 use crate::drive::{Interp, Outcome};
 use crate::explore::{bfs, StepResult, System};
 use crate::refsem::{canonical_state, outcome_matches, show_result, Machine, RVal, POLICIES};
-use crate::report::{self, hash_of, RunInfo};
+use crate::report::{self, hash_of, Acc, RunInfo};
 use crate::sexp::{parse_all, Sx};
 use crate::Ctx;
 use ruschm::values::Value;
@@ -234,6 +234,102 @@ impl System for Sys {
     }
 }
 
+/// Scale ladder: one store shape at every size N - a vector of N slots filled by a loop and read
+/// back through an alias, N assignments to one variable, one counter called N times, N counters
+/// from one generator each called a different number of times, N closures over one shared binding,
+/// a frame with N bindings of which the last is assigned through a closure.
+pub fn scale_program(n: usize, family: usize) -> Vec<String> {
+    match family {
+        0 => vec![
+            format!("(define sv (make-vector {} 0))", n),
+            "(define alias sv)".into(),
+            "(define (fill i) (if (< i (vector-length sv)) (begin (vector-set! sv i (+ i 100)) (fill (+ i 1))) 'done))".into(),
+            "(fill 0)".into(),
+            format!("(list (vector-ref alias 0) (vector-ref alias {}) (vector-ref sv {}) (vector-length alias))", n - 1, n / 2),
+            format!("(vector-set! alias {} 'last)", n - 1),
+            format!("(vector-ref sv {})", n - 1),
+            format!("(vector-ref sv {})", n),
+        ],
+        1 => {
+            let mut v = vec!["(define a 0)".to_string(), "(define (geta) a)".to_string()];
+            for i in 1..=n {
+                v.push(format!("(set! a (+ a {}))", i));
+            }
+            v.push("(list a (geta))".into());
+            v
+        }
+        2 => {
+            let mut v = vec!["(define (gen) (define k 0) (lambda () (set! k (+ k 1)) k))".to_string(), "(define c (gen))".to_string(), "(define (times i) (if (< i 1) 'done (begin (c) (times (- i 1)))))".to_string()];
+            v.push(format!("(times {})", n));
+            v.push("(c)".into());
+            v.push("(define d (gen))".into());
+            v.push("(list (d) (c))".into());
+            v
+        }
+        3 => {
+            let mut v = vec!["(define (gen) (define k 0) (lambda () (set! k (+ k 1)) k))".to_string()];
+            v.push(format!("(define cs (list {}))", (0..n).map(|_| "(gen)").collect::<Vec<_>>().join(" ")));
+            v.push("(define (nth l i) (if (< i 1) (car l) (nth (cdr l) (- i 1))))".into());
+            v.push(format!("((nth cs {}))", n - 1));
+            v.push(format!("((nth cs {}))", n - 1));
+            v.push("((nth cs 0))".into());
+            v.push(format!("(list ((nth cs {})) ((nth cs {})))", n - 1, n / 2));
+            v
+        }
+        4 => {
+            let mut v = vec!["(define shared 0)".to_string()];
+            v.push(format!("(define bumpers (list {}))", (1..=n).map(|i| format!("(lambda () (set! shared (+ shared {})) shared)", i)).collect::<Vec<_>>().join(" ")));
+            v.push("(define (run-all l) (if (null? l) shared (begin ((car l)) (run-all (cdr l)))))".into());
+            v.push("(run-all bumpers)".into());
+            v.push("shared".into());
+            v
+        }
+        _ => {
+            let ps: Vec<String> = (1..=n).map(|i| format!("p{}", i)).collect();
+            vec![
+                "(define total 100)".to_string(),
+                format!("(define (frame {}) (define total 0) (define (add! x) (set! total (+ total x)) total) (set! p{} (+ p{} 1)) (add! p{}) (add! p1) (list total p{}))", ps.join(" "), n, n, n, n),
+                format!("(frame {})", (1..=n).map(|i| i.to_string()).collect::<Vec<_>>().join(" ")),
+                "total".into(),
+            ]
+        }
+    }
+}
+
+fn scale_phase(top: usize) -> Acc {
+    crate::par::sweep(
+        (top * 6) as u64,
+        8,
+        |_| (),
+        |_, acc: &mut Acc, i| {
+            let (n, family) = (i as usize / 6 + 1, i as usize % 6);
+            let forms = scale_program(n, family);
+            let fs = forms.clone();
+            let (ok, exp, obs) = crate::drive::on_fresh_thread(move || {
+                let mut it = Interp::must_new();
+                let mut m = Machine::new(POLICIES[0]);
+                m.fuel = 2_000_000;
+                let (mut exp, mut obs, mut ok) = (vec![], vec![], true);
+                for f in &fs {
+                    let r = m.eval_top(&crate::sexp::parse1(f));
+                    let o = it.eval(f);
+                    ok &= outcome_matches(&r, &o);
+                    exp.push(format!("{} => {}", f.chars().take(60).collect::<String>(), show_result(&r)));
+                    obs.push(format!("{}", o));
+                }
+                (ok, exp, obs)
+            });
+            acc.evals += 1;
+            acc.transitions += forms.len() as u64;
+            acc.count(&format!("scale ladder: family {}", family), 1);
+            acc.distinct_hash(hash_of(&(family, &obs)));
+            if !ok {
+                acc.mismatch(crate::report::Mismatch { idx: 70_000_000 + i, case: format!("[scale ladder: family {} n={}]\n{}", family, n, forms.iter().map(|f| f.chars().take(200).collect::<String>()).collect::<Vec<_>>().join("\n")), expected: exp.join(" ; "), observed: obs.join(" ; "), payload: json!({"kind": "scale", "n": n, "family": family}) }, None);
+            }
+        },
+    )
+}
+
 pub fn run(ctx: &Ctx) -> i32 {
     let depth: usize = std::env::var("C03_DEPTH").ok().and_then(|s| s.parse().ok()).unwrap_or(if ctx.thorough() { 7 } else { 5 });
     let cap: u64 = if ctx.thorough() { 40_000_000 } else { 1_500_000 };
@@ -256,6 +352,8 @@ pub fn run(ctx: &Ctx) -> i32 {
     let fv = exf.acc.n_violations;
     acc.n_violations += fv;
     acc.violations.extend(exf.acc.violations);
+    let scale = if ctx.thorough() { 400 } else { 150 };
+    acc.merge(scale_phase(scale));
     report::finish(
         acc,
         RunInfo {
@@ -263,7 +361,7 @@ pub fn run(ctx: &Ctx) -> i32 {
             tier: ctx.tier_name(),
             seed: ctx.seed,
             exhaustive: !ex.capped,
-            rule: format!("breadth-first search over all histories of {} operations (counter generators with private and shared bindings, set!/define of captured top-level variables, parameter assignment, vectors aliased through variables, lists, vectors, arguments, closures and make-vector fill, literal vectors) up to the depth bound; states = distinct canonical dumps of the reference store; every transition compares the operation result, the alias partition of {} places and {} probe forms", OPS.len(), PLACES.len(), PROBES.len()),
+            rule: format!("breadth-first search over all histories of {} operations (counter generators with private and shared bindings, set!/define of captured top-level variables, parameter assignment, vectors aliased through variables, lists, vectors, arguments, closures and make-vector fill, literal vectors) up to the depth bound; scale ladder: vectors of N slots filled by a loop and read through an alias, N assignments to one variable, a counter called N times, N counters of one generator, N closures over one binding, frames with N bindings, for every N <= 150 (thorough 400); states = distinct canonical dumps of the reference store; every transition compares the operation result, the alias partition of {} places and {} probe forms", OPS.len(), PLACES.len(), PROBES.len()),
             bounds: json!({"depth_completed": ex.completed_depth, "depth_requested": depth, "new_states_per_depth": ex.states_per_depth, "transition_cap": cap, "cap_hit": ex.capped, "fresh_mode_depth": fresh_depth}),
             assumptions: vec!["refsem is the store model (bindings as locations, vectors with identity and mutability flag)".into(), "pooled mode: each replay runs in a new child frame of the stdlib frame; cross-checked against new-interpreter replays at the lower depths".into()],
             wall_s: ctx.elapsed(),
@@ -273,6 +371,20 @@ pub fn run(ctx: &Ctx) -> i32 {
 }
 
 pub fn replay(p: &serde_json::Value) -> bool {
+    if p["kind"] == "scale" {
+        let forms = scale_program(p["n"].as_u64().unwrap() as usize, p["family"].as_u64().unwrap() as usize);
+        let mut it = Interp::must_new();
+        let mut m = Machine::new(POLICIES[0]);
+        m.fuel = 2_000_000;
+        let mut bad = false;
+        for f in &forms {
+            let r = m.eval_top(&crate::sexp::parse1(f));
+            let o = it.eval(f);
+            println!("{} => {} (reference {})", f.chars().take(100).collect::<String>(), o, show_result(&r));
+            bad |= !outcome_matches(&r, &o);
+        }
+        return bad;
+    }
     let h: Vec<u16> = p["history"].as_array().unwrap().iter().map(|x| x.as_u64().unwrap() as u16).collect();
     let sys = Sys::new(true);
     let mut w = sys.new_worker();
